@@ -56,6 +56,19 @@ def run(ctx):
                             {"tie": "ctx-rand", "args": ["rand", ctx.seed * 100000 + i]}))
             break
     ctx.ties.append({"name": "ctx-rand (oracle only)", "cases": n, "disagreements": bad2})
+    nr = ctx.scale(3, 40)
+    bad3 = 0
+    for i in range(nr):
+        rc, lines, err = ctx.run_driver(exe, ["race", ctx.seed * 1000 + i], timeout=120)
+        ctx.count(("race", i), True, "race")
+        if rc != 0 or not lines or lines[-1].split()[1::2] != ["0", "0", "0"]:
+            bad3 += 1
+            ctx.add(Finding("violation", "ctx-cancel-race", "2-6 threads cancel one context at once (300 rounds, seed %d): %s rc=%s (BAD = not exactly one caller got true / a cancelled context answered true again / "
+                            "reset did not make it cancellable again; SPURIOUS = sibling, isolated or parent context marked; STICKY = not cancelled afterwards / still cancelled after reset)" % (
+                                ctx.seed * 1000 + i, (lines or ["no output"])[-1], rc), {"tie": "ctx-race", "args": ["race", ctx.seed * 1000 + i]}))
+            break
+    ctx.rules.append("race: 2-6 threads call cancel_group_execution on one fresh bound context at once: exactly one true; it stays cancelled until reset(); sibling / isolated / parent contexts untouched")
+    ctx.ties.append({"name": "ctx-race (oracle only)", "cases": nr, "disagreements": bad3})
     ctx.rules.append("rand: 2-4 threads building nested context chains beneath a common root while one of them cancels the root or a sibling subtree; "
                      "verdict at quiescence: level-1 contexts beneath a cancelled root are cancelled, an unrelated isolated context never is")
 
